@@ -935,6 +935,7 @@ func TestVerifC12Iterators(t *testing.T) {
 		ctx := context.Background()
 		tree := w.v.tree()
 
+		excluded := false // VERIF_C12_EXCLUDE_KNOWN=1: the case ran into the known finding and is abandoned
 		run := func(from int64) (next int64, broke bool) {
 			it := c.Entries
 			if mode == "AllEntries" {
@@ -950,6 +951,13 @@ func TestVerifC12Iterators(t *testing.T) {
 					t.Fatalf("%s(start=%d) yielded index %d outside the tree of size %d; %s", mode, from, i, n, w.desc())
 				}
 				if err := c12Covered(e, truth[i]); err != nil {
+					if c12IsKnownForgery(n, from, i, w.harmful) {
+						if c12ExcludeKnown() {
+							excluded = true
+							return next, true
+						}
+						t.Fatalf("%s: %s(start=%d) yielded UNAUTHENTICATED content at index %d: %v; %s%s", c12KnownMarker, mode, from, i, err, w.failDesc(), c12Diagnose(w, i))
+					}
 					t.Fatalf("%s(start=%d) yielded UNAUTHENTICATED content at index %d: %v; %s%s", mode, from, i, err, w.failDesc(), c12Diagnose(w, i))
 				}
 				next++
@@ -975,6 +983,10 @@ func TestVerifC12Iterators(t *testing.T) {
 		}
 
 		next, broke := run(start)
+		if excluded {
+			rec.Case(fmt.Sprintf("%s start=%d limit=%d resume=%v %s", mode, start, limit, resume, w.desc()), true, "excluded-known-finding", "mode:"+mode)
+			return
+		}
 		err := c.Err()
 		complete := w.expectComplete()
 		if complete {
@@ -997,6 +1009,10 @@ func TestVerifC12Iterators(t *testing.T) {
 			resumed = true
 			from := next
 			next2, _ := run(from)
+			if excluded {
+				rec.Case(fmt.Sprintf("%s start=%d limit=%d resume=%v %s", mode, start, limit, resume, w.desc()), true, "excluded-known-finding", "mode:"+mode)
+				return
+			}
 			err2 := c.Err()
 			if w.expectComplete() {
 				if err2 != nil {
@@ -1435,6 +1451,142 @@ func TestVerifC12Checkpoint(t *testing.T) {
 }
 
 // ---------------------------------------------------------------------------
+// known finding: golang.org/x/mod/sumdb/tlog (< the upstream fix) leaves some
+// hash tiles unchecked. The classification below is the harness' own arithmetic
+// on the tree size and the requested leaves; it does not call tlog.
+// ---------------------------------------------------------------------------
+
+// c12KnownMarker is put into a failure message iff the forged entry is explained
+// by that root cause. Signature for known_findings.json: `C12-KNOWN tlog-unauthenticated-tile`.
+const c12KnownMarker = "C12-KNOWN tlog-unauthenticated-tile"
+
+func c12ExcludeKnown() bool { return os.Getenv("VERIF_C12_EXCLUDE_KNOWN") == "1" }
+
+type c12HT struct { // a hash tile of height 8
+	L int
+	N int64
+	W int
+}
+
+func (t c12HT) path() string { return vfref.TilePath("", t.L, t.N, t.W) }
+
+// c12HTParent returns the tile k levels above t, with the width it has in a tree of size n.
+func c12HTParent(t c12HT, k int, n int64) (c12HT, bool) {
+	t.L += k
+	t.N >>= uint(8 * k)
+	t.W = 256
+	if t.L > 7 {
+		return c12HT{}, false
+	}
+	if max := n >> uint(8*t.L); t.N*256+256 >= max {
+		if t.N*256 >= max {
+			return c12HT{}, false
+		}
+		t.W = int(max - t.N*256)
+	}
+	return t, true
+}
+
+// c12HTFor returns the coordinates of the tile storing the hash of the complete subtree (level, idx).
+func c12HTFor(level int, idx int64) c12HT {
+	return c12HT{L: level / 8, N: (idx << uint(level%8)) >> 8}
+}
+
+// c12UnauthenticatedTiles lists the hash tiles that the defective tile hash reader
+// never checks against their parent when the hashes of the given leaves are requested
+// for a tree of size n: it fetches first the distinct tiles holding the subtree roots
+// of n ("stx"), then parents-before-children the tiles of the leaves, and starts
+// checking tiles against their parents at position len(stx) instead of at the number
+// of distinct stx tiles.
+func c12UnauthenticatedTiles(n int64, leaves []int64) map[c12HT]bool {
+	type node struct {
+		level int
+		idx   int64
+	}
+	var stx []node
+	for lvl, start := 62, int64(0); lvl >= 0; lvl-- {
+		if n&(1<<uint(lvl)) != 0 {
+			stx = append(stx, node{lvl, start >> uint(lvl)})
+			start += 1 << uint(lvl)
+		}
+	}
+	order := map[c12HT]bool{}
+	var tiles []c12HT
+	for _, s := range stx {
+		if t, ok := c12HTParent(c12HTFor(s.level, s.idx), 0, n); ok && !order[t] {
+			order[t] = true
+			tiles = append(tiles, t)
+		}
+	}
+	nStx := len(tiles)
+	for _, x := range leaves {
+		t0 := c12HTFor(0, x)
+		k := 0
+		for ; ; k++ {
+			p, ok := c12HTParent(t0, k, n)
+			if !ok {
+				return nil
+			}
+			if order[p] {
+				break
+			}
+		}
+		for k--; k >= 0; k-- {
+			p, _ := c12HTParent(t0, k, n)
+			order[p] = true
+			tiles = append(tiles, p)
+		}
+	}
+	out := map[c12HT]bool{}
+	for i := nStx; i < len(stx) && i < len(tiles); i++ {
+		out[tiles[i]] = true
+	}
+	// a tile below an unchecked tile is only ever compared with that unchecked tile
+	for changed := true; changed; {
+		changed = false
+		for _, t := range tiles[nStx:] {
+			if p, ok := c12HTParent(t, 1, n); ok && out[p] && !out[t] {
+				out[t], changed = true, true
+			}
+		}
+	}
+	return out
+}
+
+// c12BatchLeaves returns the range of leaves whose hashes are requested together
+// with leaf i by an Entries/AllEntries call that started at from (data tiles are
+// processed in batches of up to 50; the trailing partial tile is a batch of its own).
+func c12BatchLeaves(n, from, i int64) (lo, hi int64) {
+	for {
+		base, top := from/256*256, n/256*256
+		if top == base {
+			top = n
+		}
+		if i < top || top >= n {
+			b0 := base + (i-base)/12800*12800
+			return b0, min(top, b0+12800)
+		}
+		from = top
+	}
+}
+
+// c12IsKnownForgery reports whether an unauthentic entry yielded at index i by an
+// iterator started at from is explained by the known finding: the level-0 hash
+// tile holding leaf i was tampered with and is one of the tiles left unchecked.
+func c12IsKnownForgery(n, from, i int64, harmful map[string]bool) bool {
+	if i < 0 || i >= n || from < 0 || from > i {
+		return false
+	}
+	lo, hi := c12BatchLeaves(n, from, i)
+	var leaves []int64
+	for x := lo; x < hi; x++ {
+		leaves = append(leaves, x)
+	}
+	t, ok := c12HTParent(c12HTFor(0, i), 0, n)
+	return ok && c12UnauthenticatedTiles(n, leaves)[t] && harmful[t.path()]
+}
+
+// ---------------------------------------------------------------------------
 // root-cause probe and systematic sweep of the "consistent bundle" forgery
 // ---------------------------------------------------------------------------
 
@@ -1473,7 +1625,7 @@ func TestVerifC12BundleSweep(t *testing.T) {
 	defer rec.Flush()
 	defer debug.SetGCPercent(debug.SetGCPercent(400)) // many short-lived tile buffers
 	key := c12Keys()[c12KeyLog]
-	var bad []string
+	var bad, novel []string // forgeries explained by the known finding / not explained by it
 	for n := int64(257); n <= c12MaxN; n++ {
 		v, alt := c12ViewOf("main", n), c12ViewOf("alt", n)
 		for k := int64(0); k*256 < n; k++ {
@@ -1501,9 +1653,24 @@ func TestVerifC12BundleSweep(t *testing.T) {
 				}
 			}
 			cls := "rejected"
+			harm := map[string]bool{dk: true, hk: true}
+			predicted := c12IsKnownForgery(n, k*256, k*256, harm)
+			if predicted {
+				rec.Add("combinations-in-the-known-unchecked-class", 1)
+			}
 			if forged > 0 {
-				cls = "FORGED-ENTRIES-YIELDED"
-				bad = append(bad, fmt.Sprintf("n=%d tile=%d (first forged index %d, %d forged entries, Err()=%v)", n, k, first, forged, c.Err()))
+				line := fmt.Sprintf("n=%d tile=%d (first forged index %d, %d forged entries, Err()=%v)", n, k, first, forged, c.Err())
+				if c12IsKnownForgery(n, k*256, first, harm) {
+					cls = "forged-entries-yielded:known-finding"
+					if c12ExcludeKnown() {
+						cls = "excluded-known-finding"
+					} else {
+						bad = append(bad, line)
+					}
+				} else {
+					cls = "FORGED-ENTRIES-YIELDED:unexplained"
+					novel = append(novel, line)
+				}
 			} else if c.Err() == nil {
 				t.Fatalf("n=%d tile=%d: AllEntries neither failed nor yielded forged entries although tile %s was forged", n, k, dk)
 			}
@@ -1515,12 +1682,20 @@ func TestVerifC12BundleSweep(t *testing.T) {
 			rec.Case(fmt.Sprintf("bundle n=%d tile=%d", n, k), true, cls, part)
 		}
 	}
+	if len(novel) > 0 {
+		show := novel
+		if len(show) > 12 {
+			show = show[:12]
+		}
+		t.Fatalf("AllEntries yielded UNAUTHENTICATED (forged) entries for %d (size, tile) combinations that the known tile-authentication finding does not explain (plus %d it does); first ones:\n  %s",
+			len(novel), len(bad), strings.Join(show, "\n  "))
+	}
 	if len(bad) > 0 {
 		show := bad
 		if len(show) > 12 {
 			show = show[:12]
 		}
-		t.Fatalf("AllEntries yielded UNAUTHENTICATED (forged) entries for %d (size, tile) combinations when a data tile and its level-0 hash tile were replaced consistently; first ones:\n  %s\n  [root cause: tlog.TileHashReader does not check some hash tiles against their parents]",
+		t.Fatalf(c12KnownMarker+": AllEntries yielded UNAUTHENTICATED (forged) entries for %d (size, tile) combinations when a data tile and its level-0 hash tile were replaced consistently; first ones:\n  %s\n  [root cause: tlog.TileHashReader does not check some hash tiles against their parents]",
 			len(bad), strings.Join(show, "\n  "))
 	}
 }
